@@ -629,6 +629,30 @@ def scratch_grow(rep, prog, rule):
                     if lt:
                         verdict = ("ok", s)
             if verdict is None:
+                # len(v) < X guards a growth to X + g: lengths in [X, X + g) are left as they are
+                want_e = sym.operand(c.args[1], (c.bb, "term"))
+                w0 = want_e
+                while isinstance(w0, tuple) and w0 and w0[0] in ("ovf", "cast"):
+                    w0 = w0[1] if w0[0] == "ovf" else w0[2]
+                for cond, val in facts:
+                    if cond[0] != "bin" or cond[1] not in ("Lt", "Gt", "Le", "Ge"):
+                        continue
+                    sides = [(cond[2], cond[3]), (cond[3], cond[2])]
+                    for ln, x in sides:
+                        if "len(" not in fmt(ln) or "len(" in fmt(x):
+                            continue
+                        x0 = x
+                        while isinstance(x0, tuple) and x0 and x0[0] in ("ovf", "cast"):
+                            x0 = x0[1] if x0[0] == "ovf" else x0[2]
+                        if w0[0] == "bin" and w0[1] == "Add" and (fmt(w0[2]) == fmt(x0) or fmt(w0[3]) == fmt(x0)):
+                            verdict = ("weaker", fmt(cond))
+                if verdict is not None:
+                    rep.bad(rule, key + "|smaller-than-grown", c.at,
+                            "%s grows %s to %s but only when %s: a buffer whose length lies between the "
+                            "tested size and the grown size is left as it is, although the extra bytes "
+                            "are needed (the alignment gap of the pixel type): the slice taken afterwards "
+                            "can be one pixel short on a reused Resizer" % (f.name, v, want[:60], verdict[1][:80]))
+                    continue
                 rep.unk(rule, key, c.at, "growth guarded by %s" % "; ".join(fmt(c_)[:60] for c_, _ in facts))
             elif verdict[0] == "bad":
                 rep.bad(rule, key + "|capacity", c.at,
